@@ -126,7 +126,6 @@ package keeper
 // HandleTimeoutOrder: re-examination of an order that was handed to providers and is not fully stored after its timeout.
 //@ func (Keeper) HandleTimeoutOrder(ctx, orderId)
 //@   requires forall c string :: has(Pledge, c) ==> Pledge[c].Creator == c && i64(Pledge[c].TotalStorage - Pledge[c].UsedStorage) == Pledge[c].TotalStorage - Pledge[c].UsedStorage
-//@   requires forall k bytes :: rawhas(Node, k) ==> k == keyof(Node, rawget(Node, k).Creator)
 //@   requires forall i int :: 0 <= i && i <= MaxUint64 && has(Shard, i) ==> i < effShardCount(get(ShardCount))
 //@   requires forall c string :: has(Metadata, c) ==> Metadata[c].CreatedAt + Metadata[c].Duration <= MaxUint64
 //@   requires [C11.sched.unique] forall c string, h int :: has(Metadata, c) && 0 <= h && h <= MaxUint64 && has(ExpiredData, h) && contains(ExpiredData[h].Data, c) ==> h == u64(Metadata[c].CreatedAt + Metadata[c].Duration)
@@ -208,7 +207,6 @@ package keeper
 // GetSps: the providers for a new order; an order is rejected rather than under-replicated
 //@ func (Keeper) GetSps(ctx, order, dataId) (sps, err)
 //@   requires forall i int :: 0 <= i && i <= MaxUint64 && has(Order, i) ==> len(Order[i].Shards) < 2147483648
-//@   requires forall k bytes :: rawhas(Node, k) ==> k == keyof(Node, rawget(Node, k).Creator)
 //@   requires forall c string :: has(Pledge, c) ==> i64(Pledge[c].TotalStorage - Pledge[c].UsedStorage) == Pledge[c].TotalStorage - Pledge[c].UsedStorage
 //@   modifies NodeRound
 //@   ensures [C15.getsps.count] err == nil ==> order.Replica >= 1 && len(sps) == order.Replica
@@ -225,7 +223,6 @@ package keeper
 // Store: a signed proposal creates an order for a new model, for an update of an existing model or for a force-push.
 //@ func (msgServer) Store(goCtx, msg) (resp, err)
 //@   requires msg != nil
-//@   requires forall k bytes :: rawhas(Node, k) ==> k == keyof(Node, rawget(Node, k).Creator)
 //@   requires forall c string :: has(Pledge, c) ==> i64(Pledge[c].TotalStorage - Pledge[c].UsedStorage) == Pledge[c].TotalStorage - Pledge[c].UsedStorage
 //@   requires forall i int :: 0 <= i && i <= MaxUint64 && has(Order, i) ==> len(Order[i].Shards) < 2147483648
 //@   requires [C16.inv.order] forall i int :: 0 <= i && i <= MaxUint64 && has(Order, i) ==> i < effOrderCount(get(OrderCount))
@@ -279,7 +276,6 @@ package keeper
 // Ready: the gateway of a pending order hands it to providers: one waiting shard per chosen provider, first timeout check scheduled.
 //@ func (msgServer) Ready(goCtx, msg) (resp, err)
 //@   requires msg != nil
-//@   requires forall k bytes :: rawhas(Node, k) ==> k == keyof(Node, rawget(Node, k).Creator)
 //@   requires forall c string :: has(Pledge, c) ==> i64(Pledge[c].TotalStorage - Pledge[c].UsedStorage) == Pledge[c].TotalStorage - Pledge[c].UsedStorage
 //@   requires forall i int :: 0 <= i && i <= MaxUint64 && has(Order, i) ==> len(Order[i].Shards) < 2147483648
 //@   requires [C16.inv.shard] forall i int :: 0 <= i && i <= MaxUint64 && has(Shard, i) ==> i < effShardCount(get(ShardCount))
@@ -471,7 +467,6 @@ package keeper
 // already holds a shard of the same order
 //@ func (msgServer) Migrate(goCtx, msg) (resp, err)
 //@   requires msg != nil
-//@   requires forall k bytes :: rawhas(Node, k) ==> k == keyof(Node, rawget(Node, k).Creator)
 //@   requires forall c string :: has(Pledge, c) ==> i64(Pledge[c].TotalStorage - Pledge[c].UsedStorage) == Pledge[c].TotalStorage - Pledge[c].UsedStorage
 //@   requires [C16.inv.shard] forall i int :: 0 <= i && i <= MaxUint64 && has(Shard, i) ==> i < effShardCount(get(ShardCount))
 //@   requires effShardCount(get(ShardCount)) + (len(msg.Data) + 1) * 4294967296 <= MaxUint64 && (forall c string :: has(Metadata, c) ==> len(Metadata[c].Orders) < 4294967296)
